@@ -120,7 +120,7 @@ func runWorker(args []string) {
 	w := fs.Int64("w", 0, "")
 	W := fs.Int64("W", 1, "")
 	start := fs.Int64("start", 0, "")
-	skip := fs.Int64("skip", -1, "")
+	skip := fs.String("skip", "", "comma separated case indices to skip (cases a previous incarnation of this worker died on)")
 	dir := fs.String("dir", "", "")
 	_ = fs.Parse(args)
 	p := registry[*prop]
@@ -139,9 +139,15 @@ func runWorker(args []string) {
 	}
 	tmp := filepath.Join(*dir, fmt.Sprintf("tmp_%d", *w))
 	_ = os.MkdirAll(tmp, 0o755)
+	skipSet := map[int64]bool{}
+	for _, t := range strings.Split(*skip, ",") {
+		if v, err := strconv.ParseInt(t, 10, 64); err == nil {
+			skipSet[v] = true
+		}
+	}
 	sinceFlush := int64(0)
 	for idx := *start; idx < n; idx++ {
-		if idx%*W != *w || idx == *skip {
+		if idx%*W != *w || skipSet[idx] {
 			continue
 		}
 		rec.CurIdx = idx
@@ -213,6 +219,16 @@ func replayFile(self, prop, file, tmp string) (*Result, string) {
 		return nil, e.Error()
 	}
 	return &r, ""
+}
+
+// headline: the line of a crash log that says what happened.
+func headline(lg string) string {
+	for _, l := range strings.Split(lg, "\n") {
+		if strings.HasPrefix(l, "DEADLOCK:") || strings.HasPrefix(l, "fatal error:") || strings.HasPrefix(l, "panic:") {
+			return trunc(l, 400) + " ... "
+		}
+	}
+	return ""
 }
 
 func tail(s string, n int) string {
@@ -378,16 +394,17 @@ func runParent(id, tier string) int {
 		wd = max(wd, p.Watchdog(tier))
 	}
 	type wstate struct {
-		start, skip int64
-		restarts    int
-		cmd         *exec.Cmd
-		logf        *os.File
+		start    int64
+		skip     []string
+		restarts int
+		cmd      *exec.Cmd
+		logf     *os.File
 	}
 	states := make([]*wstate, W)
 	launch := func(w int) {
 		st := states[w]
 		args := []string{"-s", "QUIT", strconv.Itoa(wd), self, "worker", "--prop", id, "--tier", tier, "--seed", strconv.FormatInt(seed, 10),
-			"--w", strconv.Itoa(w), "--W", strconv.Itoa(W), "--start", strconv.FormatInt(st.start, 10), "--skip", strconv.FormatInt(st.skip, 10), "--dir", tmp}
+			"--w", strconv.Itoa(w), "--W", strconv.Itoa(W), "--start", strconv.FormatInt(st.start, 10), "--skip", strings.Join(st.skip, ","), "--dir", tmp}
 		if p.WorkerBin != nil {
 			if wb := p.WorkerBin(tier); wb != "" {
 				args[3] = wb
@@ -403,7 +420,7 @@ func runParent(id, tier string) int {
 	}
 	if n > 0 {
 		for w := 0; w < W; w++ {
-			states[w] = &wstate{start: 0, skip: -1}
+			states[w] = &wstate{start: 0}
 			launch(w)
 		}
 		for w := 0; w < W; w++ {
@@ -441,7 +458,7 @@ func runParent(id, tier string) int {
 				}
 				// attribute to the current case
 				curIdx, curCase := readCurrent(filepath.Join(tmp, fmt.Sprintf("current_%d.txt", w)))
-				v := Violation{Property: id, Class: "fatal", Msg: fmt.Sprintf("worker process died (exit %d) while executing this case: %s", code, tail(string(lg), 1500)), Case: curCase, CaseIdx: curIdx}
+				v := Violation{Property: id, Class: "fatal", Msg: fmt.Sprintf("worker process died (exit %d) while executing this case: %s%s", code, headline(string(lg)), tail(string(lg), 1500)), Case: curCase, CaseIdx: curIdx}
 				if p.FatalIsViolation {
 					merged.ViolCount["fatal"]++
 					merged.Violations = append(merged.Violations, v)
@@ -450,11 +467,12 @@ func runParent(id, tier string) int {
 					merged.Aborted = append(merged.Aborted, v)
 				}
 				st.restarts++
-				if st.restarts > 20 || curIdx < 0 {
+				if st.restarts > 200 || curIdx < 0 {
 					inconclusive = append(inconclusive, fmt.Sprintf("worker %d died repeatedly (exit %d): %s", w, code, tail(string(lg), 400)))
 					break
 				}
-				st.start, st.skip = next, curIdx
+				st.start = next
+				st.skip = append(st.skip, strconv.FormatInt(curIdx, 10))
 				launch(w)
 			}
 		}
